@@ -86,6 +86,13 @@ def gen_life(rng: Any) -> tuple[str, dict[str, Any], list[Any]]:
         if st["emit"] is not None and rng.random() < 0.06:
             st["emit2"] = True
         steps.append(st)
+    # the clauses the statement names: emit+finish in one step (producers), finish() inside an exchange
+    if steps and kind == "producer" and rng.random() < 0.35:
+        j = rng.randrange(len(steps))
+        steps[j] = {"logs": steps[j]["logs"], "emit": {"rows": rng.choice([0, 1, 3]), "meta": None}, "finish": True, "raise": None}
+    if steps and kind == "exchange" and rng.random() < 0.25:
+        j = rng.randrange(len(steps))
+        steps[j] = {"logs": steps[j]["logs"], "emit": rng.choice([None, {"rows": 1, "meta": None}]), "finish": True, "raise": None}
     prog = {"init_logs": [lg for lg in gen_logs(rng) if lg[0] != "EXCEPTION"], "init": "ok", "header": rng.randrange(-3, 100),
             "steps": steps, "cancel_raises": rng.random() < 0.25}
     method = kind + ("_h" if rng.random() < 0.4 else "")
@@ -247,7 +254,7 @@ def run(ctx: Any) -> None:
         ctx.case([method, prog, ops], nontrivial=(bool(prog["steps"]) and has_cancel) or method == "typed")
         ctx.tally("method", method)
         ctx.tally("steps", len(prog["steps"]))
-        ctx.tally("ops", " ".join(o[0] + ("" if len(o) < 2 or o[0] == "exch" else ":" + str(o[1])) for o in ops)[:60] if thorough is False and len(ctx.dist.get("ops", {})) < 40 else "(other)")
+        ctx.tally("ops_shape", " ".join(o[0] for o in ops))
         first_cancel = next((j for j, o in enumerate(ops) if o[0] == "cancel"), None)
         ctx.tally("first_cancel_at", first_cancel)
         if first_cancel is not None:
@@ -294,20 +301,24 @@ def run(ctx: Any) -> None:
                 n_cancel += sum(1 for x in cs if x[0] == "cancel")
                 errs = [e for e in ev if e[0] == "error"]
                 got = batches(ev)
+                # the script's generator object: suspended (next() will run session code) or finished
+                was_suspended = suspended
+                if o[0] == "iter":
+                    suspended = not (ev and ev[-1][0] in ("done", "error"))
+                elif o[0] == "resume":
+                    suspended = was_suspended and not (ev and ev[-1][0] in ("done", "error"))
                 if cancelled:
                     if procs:
                         key = "http-suspended-iterator-continues-after-cancel" if kind == "http" and o[0] == "resume" else "process-after-cancel"
                         viol(key, "the state was processed again after cancel", c, kind, cap, res, op_index=j)
                     if o[0] in ("iter", "resume", "exch"):
-                        uses = not (o[0] == "iter" and o[1] == 0) and not (o[0] == "resume" and not suspended)
+                        uses = not (o[0] == "iter" and o[1] == 0) and not (o[0] == "resume" and not was_suspended)
                         if got:
                             key = {"iter": "http-iterate-after-cancel-yields-preloaded-batches", "resume": "http-suspended-iterator-continues-after-cancel"}.get(o[0]) if kind == "http" else None
                             viol(key or f"use-after-cancel-delivers-data:{o[0]}", "a cancelled session delivered data", c, kind, cap, res, op_index=j)
                         elif uses and len(errs) != 1:
                             key = "http-iterate-after-cancel-returns-silently" if kind == "http" and o[0] in ("iter", "resume") else f"use-after-cancel-not-refused:{o[0]}"
                             viol(key, "a cancelled session did not refuse further use with an RpcError", c, kind, cap, res, op_index=j)
-                        if o[0] in ("iter", "resume"):
-                            suspended = False
                     elif errs:
                         viol("cancel-or-close-reports-error", "close/cancel after a cancel reported an error", c, kind, cap, res, op_index=j)
                     continue
@@ -335,7 +346,6 @@ def run(ctx: Any) -> None:
                             viol("producer-batches-differ", "a failing producer delivered something that is not a prefix of its emitted batches + one error", c, kind, cap, res, expected=em)
                         elif kind != "http" and not same_batches(got, em):
                             viol("producer-batches-differ", "socket client lost batches emitted before the error", c, kind, cap, res, expected=em)
-                    suspended = not reaches_end or False
                     if reaches_end:
                         closed = closed or kind != "http"
                     continue
